@@ -209,6 +209,8 @@ Example C01_program_nonvacuous :
             SPrintln (Some (RExpr (EBin BAdd (ECall "fact" [RLit (LInt 5)]) (ENeg (ECall "round" [RVar "total"])))));
             SPrintf "{} of {total} at {hue}, {}" [RVar "x"; RExpr (EBin BMul (EVar "total") (ELit (LInt 2)))];
             SPrintln (Some (RCall "sq" [RCall "round" [RVar "total"]])); SCall "down" [RCall "sq" [RLit (LInt 1)]] false;
+            SIf (RExpr (EBin BGt (ECall "sq" [RLit (LInt 3)]) (ELit (LInt 5)))) (SPrintln (Some (RLit (LInt 1)))) (Some (SPrintln (Some (RLit (LInt 0)))));
+            SIf (RCall "sq" [RLit (LInt 0)]) (SPrintln (Some (RLit (LInt 1)))) None;
             SAssign "r" (RCall "round" [RVar "total"]); SPrintln (Some (RCall "floor" [RExpr (EBin BDiv (EVar "total") (ELit (LInt 2)))]));
             SReg R_HUE (RCall "sq" [RVar "total"]); SPrint (Some (RCall "sq" [RExpr (EBin BSub (EVar "total") (ELit (LInt 7)))]));
             SPrintln (Some (RVar "total"))] in
